@@ -60,14 +60,15 @@ const (
 
 func c06packets() []c06packet {
 	var ps []c06packet
-	for _, addr := range []bool{true, false} {
+	for _, tag := range []string{"addressed", "bare", "from-only", "to-only"} {
 		at := stanza.Attrs{}
-		if addr {
+		switch tag {
+		case "addressed":
 			at = stanza.Attrs{Id: "id-7", From: "srv@example.org/a", To: "me@example.org/b"}
-		}
-		tag := "bare"
-		if addr {
-			tag = "addressed"
+		case "from-only":
+			at = stanza.Attrs{Id: "id-8", From: "example.org"}
+		case "to-only":
+			at = stanza.Attrs{Id: "id-9", To: "me@example.org/b"}
 		}
 		for _, ty := range []string{"", "chat", "normal", "error", "groupchat"} {
 			ty, at := ty, at
@@ -160,8 +161,8 @@ func c06accepts(r c06route, p c06packet) bool {
 
 func c06routes() []c06route {
 	names := []string{"", "message", "presence", "iq"}
-	types := [][]string{nil, {"chat"}, {"normal"}, {"get", "set"}, {"result"}, {"error"}, {"unavailable"}}
-	nss := [][]string{nil, {c06disco}, {c06disco, c06version}, {c06roster}}
+	types := [][]string{nil, {"chat"}, {"normal"}, {"get", "set"}, {"result"}, {"error"}, {"unavailable"}, {"set", "error", "get"}}
+	nss := [][]string{nil, {c06disco}, {c06disco, c06version}, {c06roster}, {c06version, c06roster, c06disco}}
 	var rs []c06route
 	for _, n := range names {
 		for _, t := range types {
@@ -173,6 +174,26 @@ func c06routes() []c06route {
 	return rs
 }
 
+// c06case writes matcher values the way a user might: the builders are documented to
+// lower-case them. Style 0 = as is, 1 = first letter of every other value upper-cased,
+// 2 = everything upper-cased.
+func c06case(vals []string, style int) []string {
+	out := make([]string, len(vals))
+	for i, v := range vals {
+		switch {
+		case style == 2:
+			out[i] = strings.ToUpper(v)
+		case style == 1 && i%2 == 0:
+			out[i] = strings.ToUpper(v[:1]) + v[1:]
+		default:
+			out[i] = v
+		}
+	}
+	return out
+}
+
+var c06style int
+
 func c06build(table []c06route, log *[]int) *Router {
 	r := NewRouter()
 	for i, rt := range table {
@@ -183,10 +204,10 @@ func c06build(table []c06route, log *[]int) *Router {
 			route.Packet(strings.ToUpper(rt.name[:1]) + rt.name[1:])
 		}
 		if rt.types != nil {
-			route.StanzaType(append([]string{}, rt.types...)...)
+			route.StanzaType(c06case(rt.types, c06style)...)
 		}
 		if rt.nss != nil {
-			route.IQNamespaces(append([]string{}, rt.nss...)...)
+			route.IQNamespaces(c06case(rt.nss, c06style)...)
 		}
 		route.HandlerFunc(func(s Sender, p stanza.Packet) { *log = append(*log, i) })
 	}
@@ -260,17 +281,25 @@ func TestVerifC06(t *testing.T) {
 	var scs []hx.Scenario
 	scs = append(scs, hx.Scenario{Name: "tables<=1", Run: func(c *hx.Ctx) {
 		c06run(c, nil, packets)
-		for _, r := range routes {
-			c06run(c, []c06route{r}, packets)
+		for style := 0; style < 3; style++ {
+			c06style = style
+			for _, r := range routes {
+				c06run(c, []c06route{r}, packets)
+			}
 		}
+		c06style = 0
 		c.Sample(map[string]any{"table": []string{routes[5].String()}, "packets": len(packets)})
 	}})
 	for i := range routes {
 		i := i
 		scs = append(scs, hx.Scenario{Name: fmt.Sprintf("tables=2/first=%d", i), Run: func(c *hx.Ctx) {
 			for _, r2 := range routes {
+				c06style = 0
 				c06run(c, []c06route{routes[i], r2}, packets)
+				c06style = 1
+				c06run(c, []c06route{routes[i], r2}, packets[:40])
 			}
+			c06style = 0
 			c.Sample(map[string]any{"table": []string{routes[i].String(), routes[len(routes)-1].String()}})
 		}})
 	}
